@@ -79,3 +79,22 @@
         assert!(a.is_some() && Arc::ptr_eq(a.as_ref().unwrap(), &r1), "[overflowed_entry_is_evicted_before_the_pool]");
         std::mem::forget((lru, r1, r2, a));
     }
+
+    /// ... also when an entry re-enters the pool by being released: the oldest pool entry is demoted, the share holds
+    #[kani::proof]
+    #[kani::unwind(4)]
+    fn released_entry_does_not_overfill_the_high_priority_pool() {
+        let mut lru = VL::new(10, &LruConfig { high_priority_pool_ratio: 0.1 }); // share = 1
+        let r1 = vrec_w(1, false);
+        let r2 = vrec_w(2, false);
+        lru.push(r1.clone());
+        match VL::acquire() { Op::Mutable(mut f) => f(&mut lru, &r1), _ => assert!(false, "[lru_acquire_is_mutable]") }
+        lru.push(r2.clone()); // refills the pool to its share while r1 is held
+        match VL::release() { Op::Mutable(mut f) => f(&mut lru, &r1), _ => assert!(false, "[lru_release_is_mutable]") }
+        assert!(lru.high_priority_weight <= lru.high_priority_weight_capacity, "[high_priority_weight_within_share_after_release]");
+        let a = lru.pop();
+        assert!(a.is_some() && Arc::ptr_eq(a.as_ref().unwrap(), &r2), "[entry_demoted_by_the_release_is_the_first_victim]");
+        let b = lru.pop();
+        assert!(b.is_some() && Arc::ptr_eq(b.as_ref().unwrap(), &r1), "[released_entry_is_most_recently_used]");
+        std::mem::forget((lru, r1, r2, a, b));
+    }
